@@ -65,18 +65,12 @@ func sharedLoadCtx() *metaclient.LoadCtx {
 	return loadCtx
 }
 
-// openEngine builds an engine through the public API only: NewEngine, SetMetaClient, CreateDBPT, CreateShard.
+// openEngine builds an engine instance and fills it through the public API: SetMetaClient, CreateDBPT, CreateShard.
 func openEngine(name string) (*engEnv, error) {
 	dir := filepath.Join(workDir(), name)
 	_ = os.RemoveAll(dir)
-	eng, err := engine.NewEngine(dir, dir, engOpt, sharedLoadCtx())
-	if err != nil {
-		return nil, err
-	}
-	impl := engine.VerifC04EngineOf(eng)
-	if impl == nil {
-		return nil, fmt.Errorf("NewEngine did not return *EngineImpl")
-	}
+	// the process-wide part of NewEngine has run once in initEngine; further engines are plain instances
+	impl := engine.VerifC04NewEngineInstance(dir, dir, engOpt, sharedLoadCtx())
 	cli := metaclient.NewClient("", false, 0)
 	impl.SetMetaClient(cli)
 	impl.CreateDBPT(engDB, engPT, false)
@@ -133,6 +127,10 @@ func mkSchemaM(m string, kmin, kmax int64, asc bool) *executor.QuerySchema {
 // query through the engine the way the store's select handler does: DbPTRef, GetShard, cursors, DbPTUnref.
 // mid (optional) runs while the reference is held.
 func (v *engEnv) query(m string, mid func()) (res qresult, refErr error) {
+	return v.queryRange(m, 1, kInf, true, mid)
+}
+
+func (v *engEnv) queryRange(m string, kmin, kmax int64, asc bool, mid func()) (res qresult, refErr error) {
 	res.rows = make(map[point]val)
 	if err := v.e.DbPTRef(engDB, engPT); err != nil {
 		return res, err
@@ -146,13 +144,20 @@ func (v *engEnv) query(m string, mid func()) (res qresult, refErr error) {
 	if mid != nil {
 		mid()
 	}
-	sh, err := v.e.GetShard(engDB, engPT, engSID)
-	if err != nil || sh == nil {
+	// the ordinary plan path: EngineImpl.CreateLogicalPlan -> GetShard -> shard.CreateLogicalPlan (under shard.mu.RLock)
+	// -> CreateCursor; the cursors are then read outside the shard lock on the references they took
+	src := influxql.Sources{&influxql.Measurement{Database: engDB, RetentionPolicy: engRP, Name: m}}
+	plan, err := v.e.CreateLogicalPlan(context.Background(), engDB, engPT, []uint64{engSID}, src, mkSchemaM(m, kmin, kmax, asc))
+	if err != nil || plan == nil {
 		res.err = err
 		return
 	}
-	w := engine.VerifC04WrapShard(sh)
-	_, err = w.VerifC04Scan(context.Background(), mkSchemaM(m, 1, kInf, true), func(key []byte, rec *record.Record) {
+	dummy, ok := plan.(*executor.LogicalDummyShard)
+	if !ok {
+		res.err = fmt.Errorf("CreateLogicalPlan returned %T", plan)
+		return
+	}
+	_, err = engine.VerifC04DrainInfo(dummy.GetIndexInfo(), func(key []byte, rec *record.Record) {
 		s, ok := seriesOfKey(key)
 		if !ok {
 			res.bad = append(res.bad, fmt.Sprintf("unparsable series key %q", key))
@@ -232,6 +237,8 @@ func classifyWait(g gstate) string {
 		mode = "R"
 	case strings.Contains(w, "RWMutex.Lock"):
 		mode = "W"
+	case strings.Contains(w, "sync.Mutex.Lock") && strings.Contains(g.stack, "sync.(*RWMutex).Lock("):
+		mode = "W" // behind another writer: RWMutex.Lock waits on the RWMutex's internal writer mutex
 	case w == "select" || w == "chan receive":
 		if strings.Contains(first, "(*EngineImpl).DeleteDatabase") {
 			return "drain"
@@ -311,11 +318,23 @@ func settle(h *opHandle) (string, bool) {
 			return "done", true
 		case <-time.After(20 * time.Millisecond):
 		}
-		g, ok := goroutineStates()[h.gid]
+		all := goroutineStates()
+		g, ok := all[h.gid]
 		if !ok {
 			continue
 		}
 		c := classifyWait(g)
+		if c == "" && strings.Contains(g.wait, "WaitGroup.Wait") && strings.Contains(g.stack, "engine.(*EngineImpl).Close(") {
+			// Engine.Close waits for the goroutines that close the partitions: look at those
+			for _, g2 := range all {
+				if strings.Contains(g2.stack, "created by github.com/openGemini/openGemini/engine.(*EngineImpl).Close") {
+					if c2 := classifyWait(g2); c2 != "" {
+						c = c2
+						break
+					}
+				}
+			}
+		}
 		if c != "" && c == last {
 			stable++
 			if stable >= 3 { // the same wait seen in 4 consecutive samples: parked, not passing through
@@ -377,6 +396,8 @@ func (v *engEnv) op(name string) func() error {
 		return func() error { return v.e.DeleteMstInShard(engDB, engPT, engSID, mst2) }
 	case "flush":
 		return func() error { v.e.ForceFlush(); return nil }
+	case "delshard":
+		return func() error { return v.e.DeleteShard(engDB, engPT, engSID) }
 	case "dropdb":
 		return func() error { return v.e.DeleteDatabase(engDB, engPT) }
 	case "close":
